@@ -23,6 +23,9 @@
 //   the objective function proposes are reconstructed (same seed, numInitPoints() calls of proposeStartingPoint) and printed, too.
 //   Additional output lines before generation 0:
 //     PTS n=<k> ; for every starting point:  x.. : f(closest feasible x) : feasible(x)      (evaluated by the harness itself)
+//     D <i1> <i2> ..   the results of mu - numPoints consecutive random::discrete(rng, 0, #points-1) calls on a COPY of the generator
+//                      in the state it has when init(function, points) is entered (MOEAD: after the copy went through the same
+//                      sampleLatticeUniformly call doInit makes first); numPoints = #points if #points <= mu, else 0
 //     I n=<|m_parents|> ; for every parent as stored after init:  x.. : penalizedFitness : unpenalizedFitness : rank
 //   then the G lines of generation 0..steps as for O lines.
 // All doubles are printed with %.17g (exact round trip).  The Python side evaluates the spec.
@@ -200,9 +203,18 @@ int main(int argc, char** argv) {
 				if (plain) {                            // what init(function) will ask the function for
 					start.resize(opt->numInitPoints());
 					for (std::size_t i = 0; i < start.size(); ++i) start[i] = f->proposeStartingPoint();
-					rng.seed(seed); f->init();
 				}
+				random::rng_type copy = rng;            // the generator as init(function, points) will find it
+				if (plain) { rng.seed(seed); f->init(); }
 				dumpPoints(o, start, *f);
+				{
+					std::size_t nobj = f->numberOfObjectives();
+					if (h.moead) sampleLatticeUniformly(copy, weightLattice(nobj, computeOptimalLatticeTicks(nobj, mu)), mu);
+					std::size_t numPoints = start.size() <= expect ? start.size() : 0;
+					o << "D";
+					for (std::size_t k = numPoints; k < expect; ++k) o << " " << random::discrete(copy, std::size_t(0), start.size() - 1);
+					o << "\n";
+				}
 				if (plain) opt->init(*f); else opt->init(*f, start);
 				h.parents(o);
 			}
